@@ -434,11 +434,19 @@ def gen_alt_net(rng):
             add("EX_%d" % i, {m: -1}, "-" + cap, "1000")
         else:
             add("EX_%d" % i, {m: 1}, "-1000", cap)
+    byp = []
     for i in range(n_single):
-        add("T%d" % i, {ext[i]: -1, "N0_c": 1}, "0", "1000")
+        st = {ext[i]: -1, "N0_c": 1}
+        if rng.random() < 0.6:
+            # a by-product that has to be secreted, through an exchange WRITTEN AS AN IMPORT (--> B) running backwards
+            b_ = "B%d_e" % i
+            byp.append(b_)
+            st[b_] = 1
+            add("EX_B%d" % i, {b_: 1}, "-1000", rng.choice(["0", "10"]))
+        add("T%d" % i, st, "0", "1000")
     add("J0", dict([(m, -1) for m in ext[n_single:]] + [("N0_c", 1)]), "0", "1000")
     add("BIO", {"N0_c": -1}, "0", "1000", obj="1")
-    return {"mets": ext + ["N0_c"], "rxns": rxns, "dir": "max", "genes": []}
+    return {"mets": ext + byp + ["N0_c"], "rxns": rxns, "dir": "max", "genes": []}
 
 
 def gen_mm_cases(rng, tier):
@@ -447,7 +455,7 @@ def gen_mm_cases(rng, tier):
     for k in range(6 if tier == "quick" else 40):
         net = gen_alt_net(rng)
         cases.append({"kind": "mm", "net": net, "t": rng.choice(["1", "5", "1/2"]), "open": rng.choice([False, True]),
-                      "exports": rng.random() < 0.3, "components": rng.choice([2, 3, 4, 6])})
+                      "exports": rng.random() < 0.3, "components": rng.choice([2, 3, 4, 6, False, True])})
     for _ in range(n_nets):
         net = gen_medium_net(rng, growth=True)
         m = to_cobra(net)
